@@ -35,6 +35,12 @@ Nets4R == {ls \in {<<1, 2, 3>>} \X Lists2 \X Lists2 \X Lists2 : OKNet(<<ls[1], l
 \* three-legged stars on six labels, every orientation of the legs (always included)
 Leg(x, y, o) == IF o = 0 THEN <<x, y>> ELSE <<y, x>>
 Stars == {<<<<1, 2, 3>>, Leg(1, 4, o[1]), Leg(2, 5, o[2]), Leg(3, 6, o[3])>> : o \in [1..3 -> {0, 1}]}
+\* five operands (extractor_contract_5): a few topologies -- chain, the branch-selecting example of the library's documentation style
+\* (vector, two matrices, a matrix that only carries free labels, a rank-3 closing operand), star with a tail, ring (rank-0 result),
+\* interleaved chain, a rank-3 closing operand
+Nets5 == { <<<<1, 2>>, <<2, 3>>, <<3, 4>>, <<4, 5>>, <<5, 6>>>>, <<<<1>>, <<1, 2>>, <<2, 3>>, <<4, 5>>, <<3, 4, 6>>>>,
+           <<<<1, 2, 3>>, <<1, 4>>, <<2, 5>>, <<3, 6>>, <<6, 7>>>>, <<<<1, 2>>, <<2, 3>>, <<3, 4>>, <<4, 5>>, <<5, 1>>>>,
+           <<<<1, 2>>, <<3, 4>>, <<2, 3>>, <<4, 5>>, <<5, 6>>>>, <<<<1, 2>>, <<2, 3>>, <<1, 4>>, <<3, 5>>, <<4, 5, 6>>>> }
 ExtOf(mode, x) == CASE mode = "u2" -> 2 [] mode = "u3" -> 3 [] mode = "d" -> <<2, 3, 4, 2, 3>>[x] [] mode = "e" -> <<3, 2, 2, 4, 3>>[x]
 Mk(ls, mode, t) == [labels |-> ls, shapes |-> [o \in 1..Len(ls) |-> [a \in 1..Len(ls[o]) |-> ExtOf(mode, ls[o][a])]], mode |-> mode, T |-> t]
 Cases == { Mk(ls, m, t) : ls \in {n \in Nets3 : (HL(n) + Seed) % Quota = 0}, m \in {"u2", "u3", "d", "e"}, t \in {"f64", "i32"} }
@@ -43,6 +49,7 @@ Cases == { Mk(ls, m, t) : ls \in {n \in Nets3 : (HL(n) + Seed) % Quota = 0}, m \
          \cup { Mk(ls, "u2", "f64") : ls \in Nets4 }
          \cup { Mk(<<ls[1], ls[2], ls[3], ls[4]>>, m, "f64") : ls \in Nets4R, m \in {"u2", "u3"} }
          \cup { Mk(ls, m, "f64") : ls \in Stars, m \in {"u2", "u3"} }
+         \cup { Mk(ls, m, "f64") : ls \in Nets5, m \in {"u2", "u3"} }
 Keep(x) == x.T = "f64" \/ (HL(x.labels) + Len(x.mode)) % 3 = 0
 Init == c \in {x \in Cases : Keep(x)}
 Next == UNCHANGED c
